@@ -353,6 +353,9 @@ impl Searcher {
         // We're searching a new node here
         *nodes_searched += 1;
 
+        #[cfg(weechess_verif)]
+        verif::node_hook(token);
+
         // To avoid spending a lot of time waiting for atomic operations,
         // let's avoid checking the cancellation token in the lower leaf nodes
         if *nodes_searched % 10000 == 0 && token.is_cancelled() {
@@ -926,6 +929,197 @@ impl CancellationToken {
 
     fn is_cancelled(&self) -> bool {
         self.cancelled.load(Ordering::Relaxed)
+    }
+}
+
+/// Verification hooks (only compiled with `--cfg weechess_verif`): a child module sees the private
+/// table/artifact types and the synchronous search entry point. Nothing here changes behaviour.
+#[cfg(weechess_verif)]
+pub mod verif {
+    use super::*;
+    use std::sync::atomic::AtomicUsize;
+
+    static NODE_COUNT: AtomicUsize = AtomicUsize::new(0);
+    static CANCEL_AT: AtomicUsize = AtomicUsize::new(usize::MAX);
+
+    /// Called once per node entry of `analyze_recursive`; sets the cancellation flag when the
+    /// process-wide node counter reaches the armed value (cancellation by node count, not wall clock).
+    pub(super) fn node_hook(token: &CancellationToken) {
+        let n = NODE_COUNT.fetch_add(1, Ordering::SeqCst) + 1;
+        if n >= CANCEL_AT.load(Ordering::SeqCst) {
+            token.cancel();
+        }
+    }
+
+    pub fn nodes_entered() -> usize {
+        NODE_COUNT.load(Ordering::SeqCst)
+    }
+
+    fn move_from_raw(raw: u32) -> Move {
+        let mut buf = Vec::new();
+        ciborium::into_writer(&raw, &mut buf).unwrap();
+        ciborium::from_reader(&buf[..]).unwrap()
+    }
+
+    fn kind_of(k: u8) -> EvaluationKind {
+        match k {
+            0 => EvaluationKind::Exact,
+            1 => EvaluationKind::UpperBound,
+            _ => EvaluationKind::LowerBound,
+        }
+    }
+
+    fn kind_to(k: EvaluationKind) -> u8 {
+        match k {
+            EvaluationKind::Exact => 0,
+            EvaluationKind::UpperBound => 1,
+            EvaluationKind::LowerBound => 2,
+        }
+    }
+
+    pub type EntryTuple = (u8, u32, usize, usize, i32);
+
+    /// The real table access layer with explicit geometry (tables x buckets).
+    pub struct TableProbe(TranspositionTableAccess);
+
+    impl TableProbe {
+        pub fn new(tables: usize, buckets: usize) -> Self {
+            Self(TranspositionTableAccess::with_tables(
+                (0..tables)
+                    .map(|_| TranspositionTable::with_bucket_count(buckets))
+                    .collect(),
+            ))
+        }
+
+        pub fn insert(&self, key: u64, e: EntryTuple) {
+            self.0.insert(
+                key,
+                TranspositionEntry {
+                    kind: kind_of(e.0),
+                    performed_move: move_from_raw(e.1),
+                    depth: e.2,
+                    max_depth: e.3,
+                    evaluation: eval::Evaluation::from(e.4),
+                },
+            );
+        }
+
+        pub fn find(&self, key: u64) -> Option<EntryTuple> {
+            self.0.find(key).map(|e| {
+                (
+                    kind_to(e.kind),
+                    e.performed_move.as_raw(),
+                    e.depth,
+                    e.max_depth,
+                    i32::from(e.evaluation),
+                )
+            })
+        }
+
+        pub fn entries(&self) -> usize {
+            self.0.entries()
+        }
+
+        pub fn max_entries(&self) -> usize {
+            self.0.max_entries()
+        }
+    }
+
+    /// A fresh artifact with a small table; the hasher is drawn from the seed exactly as
+    /// `analyze_iterative` does for a fresh search.
+    pub fn small_artifact(rng: &mut RandomNumberGenerator, tables: usize, buckets: usize) -> SearchArtifact {
+        SearchArtifact {
+            hasher: ZobristHasher::with(rng),
+            transpositions: TableProbe::new(tables, buckets).0,
+            state_history: StateHistory::new(),
+        }
+    }
+
+    pub fn record_history(artifact: &mut SearchArtifact, state: &State) {
+        let h = artifact.hasher.hash(state);
+        artifact.state_history.increment(h);
+    }
+
+    pub fn artifact_hash(artifact: &SearchArtifact, state: &State) -> u64 {
+        artifact.hasher.hash(state)
+    }
+
+    pub fn artifact_find(artifact: &SearchArtifact, key: u64) -> Option<EntryTuple> {
+        artifact.transpositions.find(key).map(|e| {
+            (
+                kind_to(e.kind),
+                e.performed_move.as_raw(),
+                e.depth,
+                e.max_depth,
+                i32::from(e.evaluation),
+            )
+        })
+    }
+
+    /// Every occupied slot of the artifact's table: (key, entry).
+    pub fn artifact_dump(artifact: &SearchArtifact) -> Vec<(u64, EntryTuple)> {
+        let mut out = Vec::new();
+        for t in artifact.transpositions.tables.iter() {
+            let t = t.read().unwrap();
+            for b in t.buckets.iter() {
+                for e in b.entries.iter().flatten() {
+                    out.push((
+                        e.0,
+                        (
+                            kind_to(e.1.kind),
+                            e.1.performed_move.as_raw(),
+                            e.1.depth,
+                            e.1.max_depth,
+                            i32::from(e.1.evaluation),
+                        ),
+                    ));
+                }
+            }
+        }
+        out
+    }
+
+    pub fn history_keys(artifact: &SearchArtifact) -> Vec<(u64, usize)> {
+        let mut v: Vec<(u64, usize)> = artifact.state_history.states.iter().map(|(k, c)| (*k, *c)).collect();
+        v.sort();
+        v
+    }
+
+    /// The real `analyze_iterative`, on the caller's thread, with an explicit worker count and
+    /// cancellation at an exact node count (`cancel_at_node`: the flag is set when that many node
+    /// entries have happened in this call; `Some(0)` = cancelled before the first node).
+    pub fn analyze_sync<F>(
+        state: State,
+        rng_seed: u64,
+        max_depth: Option<usize>,
+        workers: Option<usize>,
+        previous_artifact: Option<SearchArtifact>,
+        cancel_at_node: Option<usize>,
+        f: &mut F,
+    ) -> (SearchArtifact, usize)
+    where
+        F: FnMut(StatusEvent),
+    {
+        let rng = RandomNumberGenerator::seed_from_u64(rng_seed);
+        let (signal, listen) = CancellationToken::new();
+        NODE_COUNT.store(0, Ordering::SeqCst);
+        CANCEL_AT.store(cancel_at_node.unwrap_or(usize::MAX), Ordering::SeqCst);
+        if cancel_at_node == Some(0) {
+            signal.cancel();
+        }
+        let evaluator = eval::Evaluator::default();
+        let artifact = Searcher::analyze_iterative(
+            state,
+            &evaluator,
+            rng,
+            max_depth,
+            listen,
+            previous_artifact,
+            workers,
+            f,
+        );
+        CANCEL_AT.store(usize::MAX, Ordering::SeqCst);
+        (artifact, NODE_COUNT.load(Ordering::SeqCst))
     }
 }
 
